@@ -363,6 +363,10 @@ static inline int is_chunked_ctl_char(const unsigned char c) {
  * @returns 1 if it looks valid, 0 if it looks invalid
  */
 static inline int data_probe_chunk_length(htp_connp_t *connp) {
+    if (connp->out_buf != NULL) {
+        // the line began in an earlier chunk: what we can see here is not its beginning
+        return 1;
+    }
     if (connp->out_current_read_offset - connp->out_current_consume_offset < 8) {
         // not enough data so far, consider valid still
         return 1;
